@@ -68,6 +68,12 @@ func (r *regexAST) String() string {
 	}
 	return strings.Join(res, "")
 }
+// nonCapturing tells whether the brackets holding r open with "?" ("(?:x)", "(?i)", "(?s:x)"):
+// such a group has no number and yields no value in extractAllGroupsHorizontal
+func (r *regexAST) nonCapturing() bool {
+	return len(r.RegexPart) > 0 && strings.HasPrefix(r.RegexPart[0].SimplePart, "?")
+}
+
 func (r *regexAST) collectGroupNames(init []string) []string {
 	for _, p := range r.RegexPart {
 		init = p.collectGroupNames(init)
@@ -95,7 +101,9 @@ func (r *regexPart) collectGroupNames(init []string) []string {
 		return r.NamedBrackPart.collectGroupNames(init)
 	}
 	if r.BrackPart != nil {
-		init = append(init, "")
+		if !r.BrackPart.nonCapturing() {
+			init = append(init, "")
+		}
 		return r.BrackPart.collectGroupNames(init)
 	}
 	return init
